@@ -243,12 +243,19 @@ def readFromStream(substrate, size=-1, context=None):
             raise error.EndOfStreamError(context=context)
 
         elif len(received) < size:
-            # a short read: the rest is either on its way or will never come
-            probe = substrate.read(1)
+            # a short read: take what else is readily available, the rest
+            # is either on its way or will never come
+            more = received
+            while more and len(received) < size:
+                more = substrate.read(size - len(received))
+                received += more or null
 
-            substrate.seek(-len(received) - len(probe or null), os.SEEK_CUR)
+            if len(received) == size:
+                break
 
-            if probe is not None and not probe:  # end-of-stream
+            substrate.seek(-len(received), os.SEEK_CUR)
+
+            if more is not None:  # end-of-stream
                 raise error.EndOfStreamError(context=context)
 
             # behave like a non-blocking stream
